@@ -136,7 +136,7 @@ impl Scenario for FaultScenario {
 				OpStatus::Ok(r) => {
 					outcome.push(format!("ok:{r}"));
 					// a subscription that was accepted must have ended after the fault
-					if self.ops[i] == FeOp::Subscribe && fault_happened && !l.sub_ended[i] {
+					if matches!(self.ops[i], FeOp::Subscribe | FeOp::RegisterNotif) && fault_happened && !l.sub_ended[i] {
 						v.push((format!("subscription-not-ended:{fk}"), format!("subscription stream of op #{i} did not end after the fault")));
 					}
 				}
@@ -188,6 +188,9 @@ fn scenarios(thorough: bool) -> Vec<FaultScenario> {
 		vec![FeOp::LateCall],
 		vec![FeOp::SubscribeDrop, FeOp::Call],
 		vec![FeOp::SubscribeDrop, FeOp::LateCall],
+		// subscribe_to_method is a front-end request like the others: queued behind a call whose send fails, or made late
+		vec![FeOp::Call, FeOp::RegisterNotif],
+		vec![FeOp::RegisterNotif, FeOp::LateCall],
 	];
 	if thorough {
 		histories.extend([
@@ -199,7 +202,7 @@ fn scenarios(thorough: bool) -> Vec<FaultScenario> {
 		]);
 	}
 	for ops in histories {
-		let sends = ops.iter().filter(|o| **o != FeOp::LateCall).count() + ops.iter().filter(|o| **o == FeOp::SubscribeDrop).count();
+		let sends = ops.iter().filter(|o| **o != FeOp::LateCall && **o != FeOp::RegisterNotif).count() + ops.iter().filter(|o| **o == FeOp::SubscribeDrop).count();
 		let mut faults = Vec::new();
 		for n in 0..=sends {
 			faults.push(Fault::Send(n));
